@@ -1,5 +1,5 @@
 #!/bin/bash
 # builds the harness against /repo the way check.py does (debug and release)
 export CARGO_NET_OFFLINE=true CARGO_TARGET_DIR=/verif/.cache/target RUSTFLAGS='--cfg griddle_verif'
-cd /verif/harness && cargo build --offline 2>&1 | grep -E "^(error|warning: unused)" -A6 | head -40
-cargo build --offline --release 2>&1 | grep -E "^error" -A6 | head -20
+cd /verif/harness && cargo build --offline --features par,ser 2>&1 | grep -E "^(error|warning: unused)" -A6 | head -40
+cargo build --offline --release --features par,ser 2>&1 | grep -E "^error" -A6 | head -20
